@@ -31,7 +31,8 @@ pub struct Circuit {
 }
 
 fn esc(s: &str) -> String {
-    s.replace('&', "&amp;").replace('<', "&lt;").replace('>', "&gt;").replace('"', "&quot;")
+    // a carriage return survives XML line-end normalisation only as a character reference (what Digital writes on Windows)
+    s.replace('&', "&amp;").replace('<', "&lt;").replace('>', "&gt;").replace('"', "&quot;").replace('\r', "&#13;")
 }
 
 const NESTED: &str = "<entry><string>shape</string><shape><pins><entry><string>Label</string><string>WRONG</string></entry><entry><string>Bits</string><int>7</int></entry><entry><string>InDefault</string><value v=\"3\" z=\"true\"/></entry><entry><string>Testdata</string><testData><dataString>WRONG\n</dataString></testData></entry></pins></shape></entry>";
@@ -377,6 +378,10 @@ pub fn gen_circuit(r: &mut Prng) -> Circuit {
         }
         if r.chance(1, 20) {
             src = String::new();
+        }
+        if r.chance(1, 8) {
+            // CRLF line ends
+            src = src.replace('\n', "\r\n");
         }
         let label = match r.below(8) {
             0 => None,
